@@ -154,8 +154,8 @@ theorem cCall_len (cx : Cx) (fa : FAddr) (Γ : Gam) (pc o : Nat) (g : String) (a
     (cCall cx fa Γ pc o g args).length = lenCall cx.checked args := by
   simp [cCall, lenCall, cArgs_len]; omega
 
-theorem cS_len (cx : Cx) (fa : FAddr) (s : S) : ∀ (lp : Nat × Nat) (Γ : Gam) (pc o : Nat),
-    (cS cx fa lp Γ pc o s).length = lenS cx.checked s := by
+theorem cS_len (cx : Cx) (fa : FAddr) (s : S) : ∀ (lp : Jt) (Γ : Gam) (pc o : Nat),
+    (cS cx fa lp Γ pc o s).length = lenS cx.checked lp.vd s := by
   induction s with
   | nil => intros; rfl
   | ret => intros; rfl
@@ -178,7 +178,7 @@ theorem cS_len (cx : Cx) (fa : FAddr) (s : S) : ∀ (lp : Nat × Nat) (Γ : Gam)
   | loop c body cont k ihb ihc ihk =>
     intro lp Γ pc o
     simp [cS, lenS, cB_len, ihb, ihc, ihk]; omega
-  | defeat k ih => intro lp Γ pc o; simp [cS, lenS, ih]; omega
+  | defeat k ih => intro lp Γ pc o; cases hv : lp.vd <;> simp [cS, lenS, hv, ih] <;> omega
   | defeatIf c k ih => intro lp Γ pc o; simp [cS, lenS, cD_len, ih]
   | tryUndo body handler k ihb ihh ihk =>
     intro lp Γ pc o
@@ -194,5 +194,8 @@ theorem cS_len (cx : Cx) (fa : FAddr) (s : S) : ∀ (lp : Nat × Nat) (Γ : Gam)
   | assignCall x g args k ih => intro lp Γ pc o; simp [cS, lenS, cCall_len, ih]; omega
   | brk => intros; rfl
   | cnt => intros; rfl
+  | tryStop body handler k ihb ihh ihk =>
+    intro lp Γ pc o
+    simp [cS, lenS, ihb, ihh, ihk]; omega
 
 end HidVerif.Core
